@@ -37,14 +37,24 @@ impl AccountModel {
         }
         r
     }
+    /// Live secrets ordered by (folder name, label): both are generated from
+    /// the seed, so the order does not depend on the random uuids.
     pub fn live_secrets(&self) -> Vec<(VaultId, SecretId)> {
-        let mut out = vec![];
+        let mut out: Vec<(String, String, VaultId, SecretId)> = vec![];
         for (fid, f) in &self.view.folders {
-            for sid in f.secrets.keys() {
-                out.push((*fid, *sid));
+            for (sid, (m, _)) in &f.secrets {
+                out.push((f.name.clone(), m.get("label").and_then(|l| l.as_str()).unwrap_or("").to_string(), *fid, *sid));
             }
         }
-        out
+        out.sort();
+        out.into_iter().map(|(_, _, f, s)| (f, s)).collect()
+    }
+
+    /// Folder ids ordered by (name, flags).
+    pub fn folder_ids_sorted(&self) -> Vec<VaultId> {
+        let mut v: Vec<(&str, u64, VaultId)> = self.view.folders.iter().map(|(id, f)| (f.name.as_str(), f.flags, *id)).collect();
+        v.sort();
+        v.into_iter().map(|(_, _, id)| id).collect()
     }
     pub fn total_secrets(&self) -> usize {
         self.view.folders.values().map(|f| f.secrets.len()).sum()
